@@ -406,10 +406,24 @@ def features(case, real, hist):
             bump('kind:' + o['kind'])
             if o.get('nk'):
                 bump('no_kwargs')
+            py = o.get('py')
+            if py:
+                bump('py:style:' + py.get('style', 'def'))
+                bump('py:via:' + py.get('via', 'fd'))
+                bump('py:name-by:' + py.get('nameby', 'arg'))
+                if py.get('dseed') is not None:
+                    bump('py:decorators-shuffled')
+                kinds = {p['kind'] for p in o['params'] if 'default' in p}
+                if {'pos', 'kwonly'} <= kinds:
+                    bump('py:positional-and-keyword-only-defaults')
             for p in o['params']:
                 bump('param:' + p['kind'] + ('+default' if 'default' in p else ''))
                 t = p.get('ty')
-                bump('type:' + ('undeclared' if t is None else t if isinstance(t, str) else 'py'))
+                bump('type:' + ('undeclared' if t is None else t if isinstance(t, str) else
+                                'bare-class' if t[0] == 'cls' else 'py'))
+                for flag in ('byname', 'byindex', 'nullable'):
+                    if p.get(flag) is not None:
+                        bump('param:' + flag)
     c = case['call']
     if 'recv' in c:
         bump('call:method')
